@@ -18,7 +18,7 @@ type Sel struct {
 
 // Call is one abstract driver call, in the record shape of Storage.tla (MkCall).
 type Call struct {
-	Op   string `json:"op"` // create | update | get | delete | list | query
+	Op   string `json:"op"` // create | update | get | delete | list | query | modify
 	Name string `json:"name"`
 	Rev  int    `json:"rev"`
 	St   string `json:"st"`
@@ -51,6 +51,8 @@ type AbsRel struct {
 type StoreRec struct {
 	AbsRel
 	Lab *Sel `json:"lab,omitempty"`
+	// Diff names the fields on which the stored body differs from every generated release (V = 0 only).
+	Diff []string `json:"diff,omitempty"`
 }
 
 // Reply is the reply of one call as Storage.tla sees it.
@@ -62,12 +64,13 @@ type Reply struct {
 
 // Raw carries what the abstraction drops (diagnostics, known-finding matching).
 type Raw struct {
-	Class  string   `json:"class"`            // ok | exists | notfound | invalidkey | error | panic
-	Err    string   `json:"err,omitempty"`    // error text
-	CName  string   `json:"cname,omitempty"`  // concrete release name addressed
-	Key    string   `json:"key,omitempty"`    // concrete storage key addressed
-	Diff   []string `json:"diff,omitempty"`   // fields on which a returned release differs from what was stored
-	BigInt bool     `json:"bigint,omitempty"` // the addressed / returned content holds an integer beyond 2^53
+	Class     string   `json:"class"`               // ok | exists | notfound | invalidkey | error | panic
+	Err       string   `json:"err,omitempty"`       // error text
+	CName     string   `json:"cname,omitempty"`     // concrete release name addressed
+	Key       string   `json:"key,omitempty"`       // concrete storage key addressed
+	Diff      []string `json:"diff,omitempty"`      // fields on which a returned release differs from what was stored
+	StoreDiff []string `json:"storediff,omitempty"` // fields on which a stored body differs from every generated release
+	BigInt    bool     `json:"bigint,omitempty"`    // the addressed / returned content holds an integer beyond 2^53
 }
 
 // Event is one line of the trace (NDJSON).
